@@ -444,10 +444,12 @@ func c24Inject(c *simkit.Ctx, fi *c24FrameInfo, raw []byte, magic uint32, msg mt
 		return raw
 	case 1:
 		fi.fault = "oversize_length"
-		// values up to 64 MiB only: with a broken cap the reader would allocate the
-		// declared length, which the harness must survive in order to report it
-		vals := []uint32{p2pcomm.MAX_PAYLOAD_LEN + 1, p2pcomm.MAX_PAYLOAD_LEN + 2 + uint32(t.Choose(1<<20)), 2 * p2pcomm.MAX_PAYLOAD_LEN, 1 << 26}
-		v := vals[t.Pick(6, 4, 2, 2)]
+		// mostly values up to 64 MiB (a broken cap then shows as a metered allocation); now and
+		// then the top of the uint32 range, where length arithmetic wraps around: if the reader
+		// allocates that, the worker is aborted and bin/check reports the reproducible abort
+		vals := []uint32{p2pcomm.MAX_PAYLOAD_LEN + 1, p2pcomm.MAX_PAYLOAD_LEN + 2 + uint32(t.Choose(1<<20)), 2 * p2pcomm.MAX_PAYLOAD_LEN, 1 << 26,
+			0xffffffff - uint32(t.Choose(40)), 1<<31 + uint32(t.Choose(3)) - 1}
+		v := vals[t.Pick(6, 4, 2, 2, 1, 1)]
 		binary.LittleEndian.PutUint32(raw[16:20], v)
 		fi.detail = fmt.Sprintf("length=%d", v)
 		if t.Bool() {
